@@ -8,7 +8,18 @@ iteration (special cases on the axis / on the wire / zero diameter).  Kind `cel0
 elliptic integral `cel0(kc, p, c, s)` of special_cel.py (both prologue cases p > 0 / p <= 0, the
 `kc == 0` RuntimeError as `none`) against the port `Kern.cel0`, relative 1e-12.  Kind `celiter`: `cel_iter`
 (scalar pre-loop for fewer than 15 entries, then `cel_iterv` on the whole batch) on batches of 1..20 rows
-against `Kern.celIterDispatch`, relative 1e-12.  Kind `cylinder`: `BHJM_magnet_cylinder` (one row: `cel` takes its
+against `Kern.celIterDispatch`, relative 1e-12.  Kind `celbatch`: a whole batch of 1..40 entries (sizes straddling the `n < 10`
+switch of `cel`; repeated entries; moduli from 1e-150 to 1e150, exactly +-1, inside and just outside the band | 1 - |kc| | <= 1e-6 in which
+`cel0` returns without a pass) through the real `celv` (mode v) / the dispatcher `cel` (mode d; below 10 entries also `kc == 0`:
+RuntimeError = `none`; `celv` is never called with `kc == 0`, it would not return) against `Kern.celv` / `Kern.celDispatch` (Model/Celv.lean),
+relative 1e-15 (measured: bit-identical).  On the real code the same rows also check what Props/C06 proves of the model: every entry of
+`celv(batch)` is bit-identical to `celv` of the one-entry batch (`celv_rowwise`), and to `cel0` of the entry whenever `cel0` makes at least one
+pass (`celv_eq_cel0_partial`); the entries where `cel0` and `celv` differ (all inside the band) are counted with their largest relative difference.
+Kind `el3batch`: batches of 1..40 entries (x, kc, p) through the real dispatcher `el3` (scalar `el30` below 10 entries, the masked array
+routine `el3v` from 10 on) against the port of `el30` applied entry by entry (the model of `el3` on a batch; the loop skeleton of `el3v` is proved row-wise,
+Props/C06 `el3v_loop_rowwise_partial`), relative 1e-12 (largest seen 4e-15: `h - r - r` vs `h - 2*r` and the like); where `el30` raises ValueError (x < 0 in the
+logarithmic branch, known finding el3-nan-to-int) the array routine's NaN is the reference.  On the real code also: `el3v(batch)[i]` bit-identical to `el3v([batch[i]])`.
+Kind `cylinder`: `BHJM_magnet_cylinder` (one row: `cel` takes its
 cel0 path) against `Kern.bhjmCylinder` (Model/Cylinder.lean: axial Derby kernel, diametral kernel with the Taylor
 branch r/r0 < 0.05 and the general branch, scipy's ellipk/ellipe modelled through cel0 — the modelling assumption this
 kind validates), observers stratified: far, inside, near and exactly on the axis, around r/r0 = 0.05, exactly on the hull
@@ -128,13 +139,13 @@ def run_stream(ctx, n, only=None):
     from magpylib._src.fields.field_BH_circle import BHJM_circle
     from magpylib._src.fields.field_BH_tetrahedron import BHJM_magnet_tetrahedron
     from magpylib._src.fields.field_BH_triangle import BHJM_triangle
-    from magpylib._src.fields.special_cel import cel0, cel_iter
+    from magpylib._src.fields.special_cel import cel, cel0, cel_iter, celv
 
     rng = ctx.rng
     lines, expect, meta = [], [], []
     for i in range(n):
         nps = np.random.default_rng(rng.randrange(2**31))
-        kinds = only or ["dipole", "sphere", "segment", "cuboidmask", "cuboid", "triangle", "tetra", "circle", "tetrainside", "cel0", "celiter", "cylinder", "cylmask", "cylinder"]  # cylinder twice: twelve observer strata x six polarization kinds
+        kinds = only or ["dipole", "sphere", "segment", "cuboidmask", "cuboid", "triangle", "tetra", "circle", "tetrainside", "cel0", "celiter", "cylinder", "cylmask", "cylinder", "celbatch", "el3batch"]  # cylinder twice: twelve observer strata x six polarization kinds
         kind = kinds[i % len(kinds)]
         sc = 10.0 ** nps.uniform(-3, 3)
         if kind.startswith("cylseg"):
@@ -290,6 +301,103 @@ def run_stream(ctx, n, only=None):
             expect.append(("vec", r, 1e-300))
             meta.append({"kind": kind, "rows": nrow, "circle_like": circ, "line": lines[-1][:80]})
             continue
+        elif kind == "celbatch":
+            nrow = rng.choice([1, 2, 5, 8, 9, 10, 11, 12, 20, 33, 40, rng.randrange(1, 41)])
+            mode = rng.choice("vd")
+            kc = nps.choice([-1.0, 1.0], nrow) * 10.0 ** nps.uniform(-6, 3, nrow)
+            for j in range(nrow):
+                k = rng.random()
+                sg = rng.choice([-1.0, 1.0])
+                if k < 0.15:  # inside the band: cel0 returns without a pass, celv after one
+                    kc[j] = sg * (1 + rng.choice([-1, 1]) * 10.0 ** nps.uniform(-12, -6.01))
+                elif k < 0.2:
+                    kc[j] = sg
+                elif k < 0.3:  # just outside the band
+                    kc[j] = sg * (1 + rng.choice([-1, 1]) * 10.0 ** nps.uniform(-5.99, -5))
+                elif k < 0.4:  # many / few passes
+                    kc[j] = sg * 10.0 ** (rng.choice([-1, 1]) * nps.uniform(6, 150))
+            pa = nps.choice([-1.0, 1.0, 1.0], nrow) * 10.0 ** nps.uniform(-4, 3, nrow)
+            for j in range(nrow):
+                k = rng.random()
+                if k < 0.05:
+                    pa[j] = 0.0
+                elif k < 0.1:
+                    pa[j] = 1.0
+            c, s_ = nps.uniform(-3, 3, nrow), nps.uniform(-3, 3, nrow)
+            rows = np.stack([kc, pa, c, s_], axis=1)
+            if nrow > 1 and rng.random() < 0.5:  # repeated entries
+                for _ in range(rng.randrange(1, 4)):
+                    rows[rng.randrange(nrow)] = rows[rng.randrange(nrow)]
+            if rng.random() < 0.3:
+                rows = rows[nps.permutation(nrow)]
+            if mode == "d" and nrow < 10 and rng.random() < 0.25:
+                rows[rng.randrange(nrow), 0] = rng.choice([0.0, -0.0])  # cel0 raises; celv is never called with kc == 0 (endless loop)
+            lines.append(f"kern celbatch {mode} {nrow} {enc(rows)}")
+            m = {"kind": kind, "rows": nrow, "mode": mode, "line": lines[-1][:80]}
+            meta.append(m)
+            cols = [rows[:, j].copy() for j in range(4)]
+            try:
+                with np.errstate(all="ignore"):
+                    r = np.asarray((celv if mode == "v" else cel)(*(q.copy() for q in cols)), dtype=float)
+            except RuntimeError:
+                expect.append(("mask", "none", None))
+                continue
+            if not np.any(rows[:, 0] == 0):
+                # the same statements on the real code: entry of the batch == one-entry batch (bit for bit); == cel0 off the band
+                with np.errstate(all="ignore"):
+                    full = np.asarray(celv(*(q.copy() for q in cols)), dtype=float)
+                    alone = np.array([celv(*(q[j:j + 1].copy() for q in cols))[0] for j in range(nrow)])
+                    scal = np.array([float(cel0(*rows[j])) for j in range(nrow)])
+                same = lambda a, b: (a == b) | (np.isnan(a) & np.isnan(b))
+                band = ~(np.abs(1.0 - np.abs(rows[:, 0])) > 1.0 * 0.000001)  # cel0's first test `abs(g - k) > g * errtol` (g = 1) is false: no pass
+                dif = ~same(full, scal)
+                with np.errstate(all="ignore"):
+                    rd = np.where(dif, np.abs(full - scal) / np.maximum(np.abs(full), np.abs(scal)), 0.0)
+                m["alone_ne_batch"] = int(np.sum(~same(full, alone)))
+                m["cel0_ne_celv_off_band"] = int(np.sum(dif & ~band))
+                m["cel0_ne_celv_in_band"] = int(np.sum(dif & band))
+                m["band_entries"] = int(np.sum(band))
+                m["max_reldiff_cel0_celv"] = float(np.nanmax(rd)) if nrow else 0.0
+            expect.append(("vec", r, 1e-300))
+            continue
+        elif kind == "el3batch":
+            from magpylib._src.fields.special_el3 import el3, el3v
+            nrow = rng.choice([1, 2, 5, 9, 10, 11, 20, 40, rng.randrange(1, 41)])
+            if rng.random() < 0.5:  # arguments as el3_angle builds them for the CylinderSegment: x = tan(phi), kc = sqrt(1 - m) >= 0, p = 1 - n
+                x = np.tan(nps.uniform(-np.pi / 2, np.pi / 2, nrow))
+                mm = np.where(nps.random(nrow) < 0.7, -10.0 ** nps.uniform(-3, 3, nrow), nps.uniform(0, 1, nrow))
+                kc = np.sqrt(1 - mm)
+                pa = 1 - np.where(nps.random(nrow) < 0.5, nps.uniform(-5, 1, nrow), nps.uniform(0, 1, nrow))
+            else:
+                x = nps.choice([-1.0, 1.0], nrow) * 10.0 ** nps.uniform(-3, 3, nrow)
+                kc = nps.choice([-1.0, 1.0], nrow) * 10.0 ** nps.uniform(-4, 2, nrow)
+                pa = nps.choice([-1.0, 1.0, 1.0], nrow) * 10.0 ** nps.uniform(-4, 3, nrow)
+            for arr in (x, kc, pa):
+                if rng.random() < 0.15:
+                    arr[rng.randrange(nrow)] = 0.0
+            rows = np.stack([x, kc, pa], axis=1)
+            if nrow > 1 and rng.random() < 0.4:
+                rows[rng.randrange(nrow)] = rows[rng.randrange(nrow)]
+            cols = [rows[:, j].copy() for j in range(3)]
+            m = {"kind": kind, "rows": nrow, "line": f"kern el3batch {nrow} ..."}
+            import warnings
+            with np.errstate(all="ignore"), warnings.catch_warnings():
+                warnings.simplefilter("ignore")
+                try:
+                    full = np.asarray(el3v(*(q.copy() for q in cols)), dtype=float)
+                    alone = np.array([el3v(*(q[j:j + 1].copy() for q in cols))[0] for j in range(nrow)])
+                except RuntimeError:  # 1 + p*x*x == 0 in some entry: both routines raise for the whole call
+                    continue
+                try:
+                    r = np.asarray(el3(*(q.copy() for q in cols)), dtype=float)
+                except ValueError:
+                    m["el30_ValueError"] = 1
+                    r = full
+            m["alone_ne_batch"] = int(np.sum(~((full == alone) | (np.isnan(full) & np.isnan(alone)))))
+            lines.append(f"kern el3batch {nrow} {enc(rows)}")
+            meta.append(m)
+            expect.append(("vec", r, 1e-300))
+            continue
         elif kind in ("cylinder", "cylmask"):
             d, h, x, stratum = cylinder_case(rng, nps, sc)
             dim = np.array([[d, h]])
@@ -351,10 +459,41 @@ def run_stream(ctx, n, only=None):
     out = run_driver(lines)
     stats = {"rows": len(lines), "per_kind": {}, "disagreements": 0, "nonzero_rows": 0, "branch": {}, "cylinder_strata": {},
              "cylinder_max_reldiff": 0.0, "cylseg_case_ids": {}, "cylseg_max_reldiff_by_case_id": {}, "cylseg_max_reldiff_by_kind": {},
-             "cylseg_strata": {}, "cylseg_real_code_raised": [], "triangle_strata": {}, "triangle_max_reldiff_by_stratum": {}}
+             "cylseg_strata": {}, "cylseg_real_code_raised": [], "triangle_strata": {}, "triangle_max_reldiff_by_stratum": {},
+             "celbatch": {"batches": 0, "entries": 0, "sizes_below_10": 0, "sizes_from_10": 0, "raised_RuntimeError": 0, "band_entries": 0,
+                          "real_alone_ne_batch": 0, "real_cel0_ne_celv_off_band": 0, "real_cel0_ne_celv_in_band": 0, "real_max_reldiff_cel0_celv": 0.0,
+                          "model_bit_identical_entries": 0},
+             "el3batch": {"batches": 0, "entries": 0, "sizes_below_10": 0, "sizes_from_10": 0, "el30_raised_ValueError": 0, "real_alone_ne_batch": 0,
+                          "nan_entries": 0, "max_reldiff": 0.0}}
     samples = []
     for ln, o, (typ, exp, scale), m in zip(lines, out, expect, meta):
         stats["per_kind"][m["kind"]] = stats["per_kind"].get(m["kind"], 0) + 1
+        if m["kind"] == "celbatch":
+            cb = stats["celbatch"]
+            cb["batches"] += 1
+            cb["entries"] += m["rows"]
+            cb["sizes_below_10" if m["rows"] < 10 else "sizes_from_10"] += 1
+            cb["raised_RuntimeError"] += typ == "mask"
+            cb["band_entries"] += m.get("band_entries", 0)
+            cb["real_alone_ne_batch"] += m.get("alone_ne_batch", 0)
+            cb["real_cel0_ne_celv_off_band"] += m.get("cel0_ne_celv_off_band", 0)
+            cb["real_cel0_ne_celv_in_band"] += m.get("cel0_ne_celv_in_band", 0)
+            cb["real_max_reldiff_cel0_celv"] = max(cb["real_max_reldiff_cel0_celv"], m.get("max_reldiff_cel0_celv", 0.0))
+            if m.get("alone_ne_batch", 0) or m.get("cel0_ne_celv_off_band", 0):
+                # the real celv is not row-wise / differs from cel0 off the band: what Props/C06 proves of the model is false of the code
+                stats["disagreements"] += 1
+                ctx.broken.append({"kind": "correspondence", "name": "kern:celbatch-rowwise", "detail": {"meta": m}})
+        if m["kind"] == "el3batch":
+            eb = stats["el3batch"]
+            eb["batches"] += 1
+            eb["entries"] += m["rows"]
+            eb["sizes_below_10" if m["rows"] < 10 else "sizes_from_10"] += 1
+            eb["el30_raised_ValueError"] += m.get("el30_ValueError", 0)
+            eb["real_alone_ne_batch"] += m["alone_ne_batch"]
+            eb["nan_entries"] += int(np.sum(np.isnan(exp)))
+            if m["alone_ne_batch"]:
+                stats["disagreements"] += 1
+                ctx.broken.append({"kind": "correspondence", "name": "kern:el3batch-rowwise", "detail": {"meta": m}})
         if m["kind"] == "triangle":
             stats["triangle_strata"][m["stratum"]] = stats["triangle_strata"].get(m["stratum"], 0) + 1
         elif "stratum" in m and not m["kind"].startswith("cylseg"):
@@ -435,19 +574,27 @@ def run_stream(ctx, n, only=None):
                 ok = False
             else:
                 both_nan = np.isnan(got) & np.isnan(exp)
-                tol = (1e-3 if m.get("stratum") == "near-edge-line" else 1e-12) if m["kind"] in ("triangle", "tetra") else 1e-12 if m["kind"] in ("cel0", "celiter") else 1e-9 if m["kind"] == "cylinder" else 1e-10  # triangle sheets (repaired edge integral): same operations in the same order, agreement to a few ulp; only within 1e-12..1e-4 edge lengths of an edge line the cancellation in solid_angle (N, D of the arctan2) amplifies the different summation order of einsum; cylinder: scipy ellipk/ellipe vs their cel0 forms
+                tol = (1e-3 if m.get("stratum") == "near-edge-line" else 1e-12) if m["kind"] in ("triangle", "tetra") else 1e-12 if m["kind"] in ("cel0", "celiter", "el3batch") else 1e-15 if m["kind"] == "celbatch" else 1e-9 if m["kind"] == "cylinder" else 1e-10  # triangle sheets (repaired edge integral): same operations in the same order, agreement to a few ulp; only within 1e-12..1e-4 edge lengths of an edge line the cancellation in solid_angle (N, D of the arctan2) amplifies the different summation order of einsum; cylinder: scipy ellipk/ellipe vs their cel0 forms
                 if m["kind"] == "cylinder" and np.shape(got) == np.shape(exp) and not np.any(both_nan):
                     with np.errstate(all="ignore"):
                         rd = np.abs(got - exp) / np.maximum(np.maximum(np.abs(got), np.abs(exp)), scale)
                     if np.all(np.isfinite(rd)):
                         stats["cylinder_max_reldiff"] = max(stats["cylinder_max_reldiff"], float(np.max(rd)))
+                if m["kind"] == "el3batch" and np.shape(got) == np.shape(exp):
+                    with np.errstate(all="ignore"):
+                        rd = np.where(both_nan | (got == exp), 0.0, np.abs(got - exp) / np.maximum(np.abs(got), np.abs(exp)))
+                    if np.all(np.isfinite(rd)):
+                        stats["el3batch"]["max_reldiff"] = max(stats["el3batch"]["max_reldiff"], float(np.max(rd)))
+                if m["kind"] == "celbatch" and np.shape(got) == np.shape(exp):
+                    stats["celbatch"]["model_bit_identical_entries"] += int(np.sum(both_nan | (got == exp)))
                 if m["kind"] in ("triangle", "tetra") and np.shape(got) == np.shape(exp):
                     m.setdefault("stratum", m["kind"])
                     with np.errstate(all="ignore"):
                         rd = np.where(both_nan | (got == exp), 0.0, np.abs(got - exp) / np.maximum(np.maximum(np.abs(got), np.abs(exp)), scale))
                     rdm = float(np.max(rd)) if np.all(np.isfinite(rd)) else float("inf")
                     stats["triangle_max_reldiff_by_stratum"][m["stratum"]] = max(stats["triangle_max_reldiff_by_stratum"].get(m["stratum"], 0.0), rdm)
-                ok = bool(np.all(both_nan | (got == exp) | (np.abs(got - exp) <= tol * np.maximum(np.maximum(np.abs(got), np.abs(exp)), scale))))
+                with np.errstate(all="ignore"):
+                    ok = bool(np.all(both_nan | (got == exp) | (np.abs(got - exp) <= tol * np.maximum(np.maximum(np.abs(got), np.abs(exp)), scale))))
                 if np.any(exp != 0):
                     stats["nonzero_rows"] += 1
         if not ok:
